@@ -4,7 +4,6 @@
 //! usage: pgen <prop> <tier> <outdir> <nshards> <engine_dir> [--sched]
 
 use peginator_codegen::{CodegenGrammar, CodegenSettings, Grammar};
-use rayon::prelude::*;
 use refpeg::corpus::{Case, Tier};
 use serde_json::json;
 use std::collections::BTreeMap;
@@ -41,8 +40,112 @@ fn generate(case: &Case) -> Gen {
     }
 }
 
+/// `pgen --worker <prop> <tier> <start> <end> <outfile>`: generate the cases start..end one after the other in this
+/// process (one thread, corpus order) and append one JSON line per finished case. A case that kills the
+/// process leaves no line; the parent attributes the death to it and restarts behind it.
+fn worker(args: &[String]) {
+    let prop = &args[0];
+    let tier = Tier::parse(&args[1]);
+    let start: usize = args[2].parse().unwrap();
+    let end: usize = args[3].parse().unwrap();
+    std::panic::set_hook(Box::new(|_| {}));
+    let corpus = refpeg::corpus::build(prop, tier);
+    let mut out = std::fs::OpenOptions::new().create(true).append(true).open(&args[4]).unwrap();
+    use std::io::Write;
+    for c in &corpus[start..end.min(corpus.len())] {
+        let line = match generate(c) {
+            Gen::Code(s) => json!({"id": c.id, "k": "code", "v": s}),
+            Gen::Rejected(m) => json!({"id": c.id, "k": "rejected", "v": m}),
+            Gen::Panicked(m) => json!({"id": c.id, "k": "panicked", "v": m}),
+        };
+        writeln!(out, "{}", line).unwrap();
+        out.flush().unwrap();
+    }
+}
+
+/// run the real generator over the whole corpus in crash-isolated worker processes
+fn generate_all(prop: &str, tier: Tier, n: usize, outdir: &Path) -> Vec<Gen> {
+    let exe = std::env::current_exe().unwrap();
+    let nworkers = 16usize.min(n.max(1));
+    let chunk = (n + nworkers - 1) / nworkers.max(1);
+    let tmp = outdir.join("gen-tmp");
+    let _ = std::fs::remove_dir_all(&tmp);
+    std::fs::create_dir_all(&tmp).unwrap();
+    let handles: Vec<std::thread::JoinHandle<Vec<(usize, Gen)>>> = (0..nworkers)
+        .map(|w| {
+            let (exe, tmp, prop) = (exe.clone(), tmp.clone(), prop.to_string());
+            std::thread::spawn(move || {
+                let (lo, hi) = (w * chunk, ((w + 1) * chunk).min(n));
+                let mut results: Vec<(usize, Gen)> = Vec::new();
+                let mut start = lo;
+                let mut attempt = 0;
+                while start < hi {
+                    let file = tmp.join(format!("w{w}-{attempt}.jsonl"));
+                    attempt += 1;
+                    let mut child = std::process::Command::new(&exe)
+                        .args(["--worker", &prop, tier.name(), &start.to_string(), &hi.to_string(), file.to_str().unwrap()])
+                        .stdout(std::process::Stdio::null())
+                        .stderr(std::process::Stdio::null())
+                        .spawn()
+                        .unwrap();
+                    // watchdog: no new result for 120 s counts as a hang of the case being generated
+                    let mut last_len = 0u64;
+                    let mut since = std::time::Instant::now();
+                    let mut hung = false;
+                    let status = loop {
+                        if let Some(st) = child.try_wait().unwrap() {
+                            break Some(st);
+                        }
+                        std::thread::sleep(std::time::Duration::from_millis(50));
+                        let len = std::fs::metadata(&file).map(|m| m.len()).unwrap_or(0);
+                        if len != last_len {
+                            last_len = len;
+                            since = std::time::Instant::now();
+                        } else if since.elapsed().as_secs() >= 120 {
+                            let _ = child.kill();
+                            let _ = child.wait();
+                            hung = true;
+                            break None;
+                        }
+                    };
+                    let text = std::fs::read_to_string(&file).unwrap_or_default();
+                    let mut done = 0usize;
+                    for l in text.lines() {
+                        let Ok(v) = serde_json::from_str::<serde_json::Value>(l) else { break };
+                        let id = v["id"].as_u64().unwrap() as usize;
+                        let body = v["v"].as_str().unwrap_or("").to_string();
+                        results.push((id, match v["k"].as_str().unwrap() { "code" => Gen::Code(body), "rejected" => Gen::Rejected(body), _ => Gen::Panicked(body) }));
+                        done += 1;
+                    }
+                    let _ = std::fs::remove_file(&file);
+                    start += done;
+                    if start < hi {
+                        // the worker died (or hung) while generating case `start`
+                        let how = if hung { "the generator made no progress for 120 s (killed)".to_string() } else { format!("the generator process died: {:?}", status) };
+                        results.push((start, Gen::Panicked(how)));
+                        start += 1;
+                    }
+                }
+                results
+            })
+        })
+        .collect();
+    let mut gens: Vec<Option<Gen>> = (0..n).map(|_| None).collect();
+    for h in handles {
+        for (id, g) in h.join().unwrap() {
+            gens[id] = Some(g);
+        }
+    }
+    let _ = std::fs::remove_dir_all(&tmp);
+    gens.into_iter().enumerate().map(|(i, g)| g.unwrap_or_else(|| panic!("no generator result for case {i}"))).collect()
+}
+
 fn main() {
     let args: Vec<String> = std::env::args().collect();
+    if args.len() >= 7 && args[1] == "--worker" {
+        worker(&args[2..]);
+        return;
+    }
     if args.len() < 6 {
         eprintln!("usage: pgen <prop> <tier> <outdir> <nshards> <engine_dir> [--sched]");
         std::process::exit(2);
@@ -58,7 +161,8 @@ fn main() {
     let corpus = refpeg::corpus::build(prop, tier);
     // 0 = choose: at most ~700 generated modules per crate (rustc memory), at least 16 crates
     let nshards = if nshards == 0 { ((corpus.len() + 699) / 700).max(16) } else { nshards };
-    let gens: Vec<Gen> = corpus.par_iter().map(generate).collect();
+    std::fs::create_dir_all(outdir).unwrap();
+    let gens: Vec<Gen> = generate_all(prop, tier, corpus.len(), outdir);
 
     let mut rejected = Vec::new();
     let mut panicked = Vec::new();
